@@ -103,6 +103,9 @@ func (t *Tree) feedLeaf(leaf validator, jsonLex lexeme.LexEvent, indexOfLeaf int
 		leaf.setParent(nil) // remove the pointer to simplify garbage collection in the future
 		if parent == nil {
 			delete(t.leaves, indexOfLeaf)
+		} else if t.hasLeaf(parent) {
+			// Another alternative has already stepped back to the same parent.
+			delete(t.leaves, indexOfLeaf)
 		} else {
 			t.leaves[indexOfLeaf] = parent // step back to parent
 		}
@@ -121,6 +124,15 @@ func (t *Tree) feedLeaf(leaf validator, jsonLex lexeme.LexEvent, indexOfLeaf int
 	}
 
 	return nil
+}
+
+func (t *Tree) hasLeaf(v validator) bool {
+	for _, l := range t.leaves {
+		if l == v {
+			return true
+		}
+	}
+	return false
 }
 
 func (t *Tree) addLeaf(v validator) {
